@@ -4,17 +4,34 @@ set_option linter.unusedSimpArgs false
 namespace CbiVerif.ExtractLemmas
 open CbiVerif.Extract
 
+theorem surviving_nil (ds : List (List Char)) : surviving ds [] = ds := by
+  simp [surviving]
+
+theorem nil_surviving (us : List (List Char)) : surviving [] us = [] := by
+  simp [surviving]
+
+theorem surviving_append (ds es us : List (List Char)) : surviving (ds ++ es) us = surviving ds us ++ surviving es us := by
+  simp [surviving]
+
+/-- cancelling by `us`, then by `vs` = cancelling by `us ++ vs` -/
+theorem surviving_surviving (ds us vs : List (List Char)) : surviving (surviving ds us) vs = surviving ds (us ++ vs) := by
+  simp only [surviving, List.filter_filter]
+  congr 1
+  funext d
+  simp only [List.contains_eq_mem, List.mem_append, Bool.decide_or]
+  cases decide (macroName d ∈ us) <;> cases decide (macroName d ∈ vs) <;> rfl
+
 theorem Lists.append_empty (l : Lists) : l.append {} = l := by
-  cases l; simp [Lists.append]
+  cases l; simp [Lists.append, surviving_nil]
 
 theorem Lists.empty_append (l : Lists) : Lists.append {} l = l := by
-  cases l; simp [Lists.append]
+  cases l; simp [Lists.append, nil_surviving]
 
 theorem Lists.append_assoc (a b c : Lists) : (a.append b).append c = a.append (b.append c) := by
-  simp [Lists.append]
+  simp [Lists.append, surviving_append, surviving_surviving]
 
 theorem Lists.add_eq (l : Lists) (f : Flag) (v : List Char) : l.add f v = l.append (Lists.add {} f v) := by
-  cases f <;> simp [Lists.add, Lists.append]
+  cases f <;> simp [Lists.add, Lists.append, surviving_nil, nil_surviving]
 
 /-- the accumulator of the scan is a prefix of its result -/
 theorem scan_acc : ∀ (xs : List (List Char)) (sp : Option Flag) (l : Lists),
@@ -91,14 +108,14 @@ theorem lists_item (it : Item) (h : it.WF) :
     · simp [Complete, Item.render, completeFrom, reading_sep]
     · intro g
       simp only [lists, Item.render, scan, reading_sep, Item.value?]
-      cases f <;> cases g <;> simp [Lists.add, Lists.get]
+      cases f <;> cases g <;> simp [Lists.add, Lists.get, nil_surviving]
   | att f v =>
     have hr := reading_att f v h
     constructor
     · simp [Complete, Item.render, completeFrom, hr]
     · intro g
       simp only [lists, Item.render, scan, hr, Item.value?]
-      cases f <;> cases g <;> simp [Lists.add, Lists.get]
+      cases f <;> cases g <;> simp [Lists.add, Lists.get, nil_surviving]
   | other u =>
     have hr : reading u = .other := h
     constructor
@@ -107,21 +124,87 @@ theorem lists_item (it : Item) (h : it.WF) :
       simp only [lists, Item.render, scan, hr, Item.value?]
       cases g <;> simp [Lists.get]
 
-theorem Lists.get_append (a b : Lists) (g : Flag) : (a.append b).get g = a.get g ++ b.get g := by
-  cases g <;> simp [Lists.append, Lists.get]
+/-- every list but the definitions is a plain concatenation -/
+theorem Lists.get_append (a b : Lists) (g : Flag) (hg : g ≠ .D) : (a.append b).get g = a.get g ++ b.get g := by
+  cases g <;> simp [Lists.append, Lists.get] at hg ⊢
 
+theorem Lists.defines_append (a b : Lists) : (a.append b).defines = surviving a.defines b.undefs ++ b.defines := rfl
+
+/-- a command line built from items: it is complete; every list but the definitions is the sequence of that
+flag's values (for `-U`: the names) in command-line order; the definitions are the `-D` values in force -/
 theorem lists_items : ∀ (items : List Item), (∀ it ∈ items, it.WF) →
-    Complete (renderAll items) ∧ ∀ g, (lists (renderAll items)).get g = items.filterMap (Item.value? g)
-  | [], _ => ⟨by simp [Complete, renderAll, completeFrom], by intro g; cases g <;> simp [renderAll, lists, scan, Lists.get]⟩
+    Complete (renderAll items) ∧ (∀ g, g ≠ .D → (lists (renderAll items)).get g = items.filterMap (Item.value? g)) ∧
+    (lists (renderAll items)).defines = inForce items
+  | [], _ => ⟨by simp [Complete, renderAll, completeFrom], by intro g _; cases g <;> simp [renderAll, lists, scan, Lists.get],
+      by simp [renderAll, lists, scan, inForce]⟩
   | it :: rest, h => by
     have hit := lists_item it (h it (by simp))
     have ih := lists_items rest (fun x hx => h x (by simp [hx]))
     have e : renderAll (it :: rest) = it.render ++ renderAll rest := by simp [renderAll]
     rw [e]
-    constructor
-    · exact complete_append _ _ none hit.1 ih.1
-    · intro g
-      rw [lists_append _ _ hit.1, Lists.get_append, hit.2 g, ih.2 g]
+    refine ⟨complete_append _ _ none hit.1 ih.1, ?_, ?_⟩
+    · intro g hg
+      rw [lists_append _ _ hit.1, Lists.get_append _ _ _ hg, hit.2 g, ih.2.1 g hg]
       cases hv : it.value? g <;> simp [List.filterMap_cons, hv]
+    · have hd := hit.2 .D
+      have hu := ih.2.1 .U (by decide)
+      simp only [Lists.get] at hd hu
+      rw [lists_append _ _ hit.1, Lists.defines_append, hd, hu, ih.2.2]
+      rfl
+
+/-- without `-U` items the definitions in force are all `-D` values, in command-line order -/
+theorem inForce_no_undef : ∀ (items : List Item), (∀ it ∈ items, it.value? .U = none) →
+    inForce items = items.filterMap (Item.value? .D)
+  | [], _ => rfl
+  | it :: rest, h => by
+    have hr : rest.filterMap (Item.value? .U) = [] := by
+      rw [List.filterMap_eq_nil_iff]; intro x hx; exact h x (by simp [hx])
+    simp only [inForce, hr, surviving_nil, inForce_no_undef rest (fun x hx => h x (by simp [hx]))]
+    cases hv : it.value? .D <;> simp [List.filterMap_cons, hv]
+
+/-- the definitions in force are a subsequence of the `-D` values: order is kept, nothing is invented -/
+theorem inForce_sublist : ∀ (items : List Item), (inForce items).Sublist (items.filterMap (Item.value? .D))
+  | [] => List.Sublist.refl _
+  | it :: rest => by
+    have ih := inForce_sublist rest
+    simp only [inForce, surviving]
+    cases hv : it.value? .D with
+    | none => simpa [List.filterMap_cons, hv] using ih
+    | some v =>
+      simp only [List.filterMap_cons, hv, Option.toList]
+      by_cases hk : (!(rest.filterMap (Item.value? .U)).contains (macroName v)) = true
+      · simp only [List.filter_cons, hk, if_true, List.filter_nil, List.singleton_append]
+        exact ih.cons_cons v
+      · simp only [List.filter_cons, hk, if_false, List.filter_nil, List.nil_append]
+        exact ih.cons v
+
+/-- **which definitions are in force**: a `-D` value is in force at the end iff it is the value of some `-D` item
+that no later `-U` item names -/
+theorem mem_inForce (items : List Item) (d : List Char) :
+    d ∈ inForce items ↔ ∃ pre it post, items = pre ++ it :: post ∧ it.value? .D = some d ∧
+      macroName d ∉ post.filterMap (Item.value? .U) := by
+  induction items with
+  | nil => simp [inForce]
+  | cons it rest ih =>
+    simp only [inForce, List.mem_append, ih]
+    constructor
+    · rintro (h | ⟨pre, it', post, rfl, h1, h2⟩)
+      · simp only [surviving, List.mem_filter, Option.mem_toList, Bool.not_eq_true', List.contains_eq_mem,
+          decide_eq_false_iff_not] at h
+        exact ⟨[], it, rest, rfl, h.1, h.2⟩
+      · exact ⟨it :: pre, it', post, rfl, h1, h2⟩
+    · rintro ⟨pre, it', post, he, h1, h2⟩
+      cases pre with
+      | nil =>
+        simp only [List.nil_append, List.cons.injEq] at he
+        obtain ⟨rfl, rfl⟩ := he
+        left
+        simp only [surviving, List.mem_filter, Option.mem_toList, Bool.not_eq_true', List.contains_eq_mem,
+          decide_eq_false_iff_not]
+        exact ⟨h1, h2⟩
+      | cons p pre =>
+        simp only [List.cons_append, List.cons.injEq] at he
+        obtain ⟨rfl, rfl⟩ := he
+        exact Or.inr ⟨pre, it', post, rfl, h1, h2⟩
 
 end CbiVerif.ExtractLemmas
